@@ -137,6 +137,8 @@ func scenarioC15(c *Ctx) {
 			{"payload-changed", mkRes(func(d *dto.OperationDTO) { d.Payload[len(d.Payload)/2] ^= 1 }), false},
 			{"payload-truncated", mkRes(func(d *dto.OperationDTO) { d.Payload = d.Payload[:len(d.Payload)-1] }), false},
 			{"no-messages", mkRes(func(d *dto.OperationDTO) { d.ResultMsgs = nil }), true},
+			// the round is part of what was issued (the answer to a reinit operation is applied to the round its file names)
+			{"round-changed", mkRes(func(d *dto.OperationDTO) { d.DkgID = o.DKGIdentifier + "-x" }), false},
 			// the event that means "nothing to post" (the answer to a reinit operation) under an ordinary operation
 			{"processed-event", mkRes(func(d *dto.OperationDTO) { d.Event = "operation_processed_successfully"; d.ExtraData = []byte("extra") }), false},
 			{"processed-event-no-messages", mkRes(func(d *dto.OperationDTO) { d.Event = "operation_processed_successfully"; d.ResultMsgs = nil }), false},
